@@ -137,7 +137,7 @@ func structFields(c *Ctx, pkg, typ string) []string {
 	}
 	if st, ok := underlyingStruct(obj.Type()); ok {
 		for i := 0; i < st.NumFields(); i++ {
-			out = append(out, st.Field(i).Name())
+			out = append(out, fieldName(obj.Type(), i))
 		}
 	}
 	sort.Strings(out)
@@ -266,7 +266,7 @@ func r01_4(c *Ctx, r *Report) {
 		for _, ins := range bb.Instrs {
 			if cv, ok := ins.(*ssa.Convert); ok && isFloatType(cv.Type()) {
 				if bo, ok := cv.X.(*ssa.BinOp); ok && (bo.Op == token.SUB || bo.Op == token.ADD) {
-					if p, ok := bo.X.(*ssa.Parameter); ok && p.Name() == "lunarDay" {
+					if p, ok := bo.X.(*ssa.Parameter); ok && len(b.Params) > 2 && p == b.Params[2] { // the day parameter (third)
 						if k, ok := constInt(bo.Y); ok {
 							c2, ok2 = k, true
 							if bo.Op == token.SUB {
@@ -337,7 +337,12 @@ func r01_5(c *Ctx, r *Report) {
 		r.check(ymd["Lunar.year"] == "GetYear" && ymd["Lunar.month"] == "GetMonth" && ymd["Lunar.day"] == "days+1", rule, "calendar.NewLunarFromSolar takes year and month from the matched month", c.fnPos(fn), fmt.Sprintf("year <- %s, month <- %s, day <- %s", ymd["Lunar.year"], ymd["Lunar.month"], ymd["Lunar.day"]))
 	}
 	if fn := c.Fn(r, rule, "calendar.NewLunar"); fn != nil {
-		want := map[string]string{"Lunar.year": "lunarYear", "Lunar.month": "lunarMonth", "Lunar.day": "lunarDay", "Lunar.hour": "hour", "Lunar.minute": "minute", "Lunar.second": "second"}
+		want := map[string]string{}
+		for i, f := range []string{"Lunar.year", "Lunar.month", "Lunar.day", "Lunar.hour", "Lunar.minute", "Lunar.second"} {
+			if i < len(fn.Params) {
+				want[f] = fn.Params[i].Name() // by position: (year, month, day, hour, minute, second)
+			}
+		}
 		var bad []string
 		for _, b := range fn.Blocks {
 			for _, ins := range b.Instrs {
